@@ -54,6 +54,12 @@ type waitReadCloser struct {
 	io.ReadCloser
 	wait     chan struct{}
 	waitOnce sync.Once
+
+	// err is the first error returned by Read (io.EOF included). It is sticky:
+	// once the stream has ended the upload handler returns and net/http closes
+	// the request body, after which the body would report "invalid Read on
+	// closed Body" instead of io.EOF.
+	err error
 }
 
 // done signals the upload handler that the stream has been consumed. Read
@@ -66,8 +72,12 @@ func (w *waitReadCloser) done() {
 }
 
 func (w *waitReadCloser) Read(p []byte) (int, error) {
+	if w.err != nil {
+		return 0, w.err
+	}
 	n, err := w.ReadCloser.Read(p)
 	if err != nil {
+		w.err = err
 		w.done()
 	}
 	return n, err
